@@ -84,6 +84,43 @@ Proof. intros g a x Hg Ha. split; [now apply int_dec_enc | now apply int_enc_dec
 Theorem decimal_whole_domain : forall n, dec_fits n = true -> parse_dec (fmt_dec n) = Some n.
 Proof. intros n H. apply parse_fmt; [exact H | exact SC_pos]. Qed.
 
+(* NAMED Go types (type Priority string, with or without methods): whatever
+   methods the type carries — String() on the value or the pointer receiver,
+   an identity String(), Error(), MarshalText() — the wire value, the decoded
+   value, its normal form, representability and the derived schema are those of
+   the same named type with any other method set ... *)
+Theorem roundtrip_ignores_methods : forall m m' t,
+  (forall x, enc (TNamed m t) x = enc (TNamed m' t) x)
+  /\ (forall w, dec (TNamed m t) w = dec (TNamed m' t) w)
+  /\ (forall x, trunc (TNamed m t) x = trunc (TNamed m' t) x)
+  /\ (forall x, val_ok (TNamed m t) x = val_ok (TNamed m' t) x)
+  /\ arrow_of (TNamed m t) = arrow_of (TNamed m' t)
+  /\ ty_ok (TNamed m t) = ty_ok (TNamed m' t).
+Proof. exact named_ignores_methods. Qed.
+
+(* ... and, for the kinds the serializer accepts under a named type (strings,
+   enums, decimal text, large / fixed-size binaries), exactly those of the
+   UNDERLYING type: the round trip is the identity on the underlying value
+   (value_survives covers TNamed through ty_ok). *)
+Theorem named_type_is_its_underlying_value : forall m t,
+  named_enc_ok t = true ->
+  (forall x, enc (TNamed m t) x = enc t x) /\ (forall w, dec (TNamed m t) w = dec t w)
+  /\ (forall x, trunc (TNamed m t) x = trunc t x) /\ arrow_of (TNamed m t) = arrow_of t.
+Proof. exact named_as_underlying. Qed.
+
+(* FINDING (current code): a named integer / float / bool, or a named []byte in
+   a plain binary column, derives a schema and decodes, but the serializer
+   refuses every value of it (toInt64 / toUint64 / toFloat64 / the BOOL and
+   BINARY cases switch on the exact Go type, not on the Kind). *)
+Theorem named_kind_refused_refuted : forall m,
+  (forall g a z, enc (TNamed m (TInt g a)) (GInt z) = None)
+  /\ (forall b, enc (TNamed m TBool) (GBool b) = None)
+  /\ (forall is64 b, enc (TNamed m (TFlt is64)) (GFlt b) = None)
+  /\ (forall np b, enc (TNamed m (TBin BBin)) (GBytes np b) = None)
+  /\ val_ok (TNamed m (TInt I32 I32)) (GInt 5) = true
+  /\ dec (TNamed m (TInt I32 I32)) (WInt 5) = Some (GInt 5).
+Proof. exact named_kind_refused. Qed.
+
 (* the derived schema is a function of the field type *)
 Theorem schema_is_function : forall t1 t2, t1 = t2 -> arrow_of t1 = arrow_of t2.
 Proof. exact schema_fun. Qed.
@@ -127,12 +164,17 @@ Proof. exact date_legacy_bad. Qed.
 Example premises_satisfiable :
   let t := TStruct [TInt I64 I32; TPtr (TStr SEnum); TList (TPtr TDate); TMap (TStr SUtf8) (TList (TInt U16 U16));
                     TStruct [TTs UMicro true; TTime; TDur; TDec; TBin (BFix 2)];
-                    TMap (TInt I32 I32) (TPtr (TStr SUtf8)); TTs UMilli false; TTs UNano false; TTs USec false] in
+                    TMap (TInt I32 I32) (TPtr (TStr SUtf8)); TTs UMilli false; TTs UNano false; TTs USec false;
+                    TMap (TNamed (Build_meths true false false false false) (TStr SUtf8))
+                         (TPtr (TNamed (Build_meths false true false true true) (TStr SUtf8)));
+                    TList (TNamed (Build_meths true false false false false) (TStr SEnum))] in
   let x := GStruct [GInt (-5); GNil; GList true [GNil; GPtr (GTime (-43200) 999)];
                     GMap false [(GBytes false (str "k"), GList false [GInt 65535])];
                     GStruct [GTime (-62135596800) 1999; GTime 86399 999999999; GDur (-1999);
                              GBytes false (str "-0.05"); GBytes false (str "ab")];
                     GMap true [(GInt 7, GNil); (GInt 9, GPtr (GBytes false (str "v")))];
-                    GTime (-43200) 999999999; GTime (-9223372037) 145224192; GTime (-62135596800) 5] in
+                    GTime (-43200) 999999999; GTime (-9223372037) 145224192; GTime (-62135596800) 5;
+                    GMap false [(GBytes false (str "high"), GNil); (GBytes false (str "low"), GPtr (GBytes false (str "x")))];
+                    GList false [GBytes false (str "high"); GBytes false []]] in
   ty_ok t = true /\ val_ok t x = true /\ trunc t x <> x.
 Proof. repeat split; try (vm_compute; reflexivity). vm_compute. discriminate. Qed.
